@@ -33,3 +33,30 @@ fn c13_4a_volume_control() {
     kani::cover!(db > 0.0);
     core::mem::forget(info); core::mem::forget(v); core::mem::forget(w);
 }
+
+// @ob id=C13.4b,C11.5a strength=bounded tier=quick bound="chunks of 1, 2 and 3 frames; volume 0 dB or -60 dB; grid input" axioms=EXP10 fn=effect/volume_control.rs::<VolumeControl as Effect>::process
+// @req a fixed volume; the same frames processed as one chunk of n frames, n in {1, 2, 3} (a one-frame chunk is what a callback remainder produces)
+// @ens every frame of every chunk length is finite and equals the input at 0 dB / exact silence at -60 dB: the result does not depend on the chunk length, in particular not for a single-frame chunk
+#[kani::proof]
+#[kani::unwind(8)]
+#[kani::stub(f32::powf, powf32_model)]
+fn c13_4b_volume_control_any_chunk_length() {
+    let unity: bool = kani::any();
+    let (w, r) = command_writers_and_readers();
+    let mut v = VolumeControl::new(VolumeControlBuilder(Value::Fixed(Decibels(if unity { 0.0 } else { -60.0 }))), r);
+    let n: usize = kani::any();
+    kani::assume(n >= 1 && n <= 3);
+    let x = [grid_frame(), grid_frame(), grid_frame()];
+    let mut buf = x;
+    let info = empty_info();
+    v.process(&mut buf[..n], 1.0 / 48000.0, &info);
+    let mut i = 0;
+    while i < 3 {
+        let want = if i >= n || unity { x[i] } else { Frame::ZERO };
+        assert!(buf[i].left == want.left && buf[i].right == want.right, "C13.4b: volume control is independent of the chunk length (also for a one-frame chunk)");
+        i += 1;
+    }
+    kani::cover!(n == 1 && unity);
+    kani::cover!(n == 3 && !unity);
+    core::mem::forget(info); core::mem::forget(v); core::mem::forget(w);
+}
